@@ -1,3 +1,5 @@
+\* regression SizeRenderingRounds (ExactSize = FALSE, the code before efb98fd): TLC must report RoundTrip violated
+\* (the check configurations ConfStore_c11/c08/c07.cfg describe the current code: all TRUE)
 SPECIFICATION Spec
 CONSTANTS
   IfaceDeep = TRUE
